@@ -424,6 +424,10 @@ def judge_std_reply(ctx: Ctx, mt: Dict[str, Any], r: Reply, config: str, judge: 
         except Exception:
             res.violation("c-json-invalid", f"{m.name} [{config}]: Json output is not text", w)
             return
+        res.count("c_json_termination_checked")
+        if r.payload(4) != "t=1":
+            res.violation("c-json-unterminated", f"{m.name} [{config}]: Json wrote {n2} characters into a buffer that held other bytes and did not terminate "
+                          f"them: read as a C string (the documented printf(\"%s\", buf)) the text continues with the old content", {**w, "text": text[:200], "flag": r.payload(4)})
         if n1 != n2 or n1 != len(text.encode()):
             res.violation("c-json-length", f"{m.name} [{config}]: Json returned {n1}/{n2} for {len(text)} bytes of text", {**w, "text": text[:300]})
         try:
